@@ -62,6 +62,9 @@ pub struct World {
     pub names: Vec<String>,
     /// fidelity check: mirror every fs call on the real file system (see twin.rs)
     pub twin: Option<Rc<RefCell<crate::twin::TwinFs>>>,
+    /// set by `observe`: the bounded forms of `range` disagreed with `range(..)` (a conformance verdict for
+    /// the driver; not a panic, and not a matter for the damage properties)
+    pub range_forms: Option<String>,
 }
 
 impl World {
@@ -70,7 +73,7 @@ impl World {
         fs.bug.short_write = knobs.short_write;
         fs.bug.short_read = knobs.short_read;
         fs.bug.eintr = knobs.eintr;
-        World { fs: Rc::new(RefCell::new(fs)), log: None, policy, knobs, clock_ns: 1_000_000_000, names, twin: None }
+        World { fs: Rc::new(RefCell::new(fs)), log: None, policy, knobs, clock_ns: 1_000_000_000, names, twin: None, range_forms: None }
     }
 
     /// Runs `f` with this world's file system, clock, hash seed and knobs installed.
@@ -275,8 +278,8 @@ impl World {
                         let want_from: Vec<u64> = all.iter().copied().filter(|x| *x >= p).collect();
                         let want_upto: Vec<u64> = all.iter().copied().filter(|x| *x <= p).collect();
                         let want_after: Vec<u64> = all.iter().copied().filter(|x| *x > p).collect();
-                        if from != want_from || upto != want_upto || after != want_after {
-                            panic!("range({p}..) / range(..={p}) / range(>{p}) disagree with range(..): {} / {} / {} records instead of {} / {} / {}", from.len(), upto.len(), after.len(), want_from.len(), want_upto.len(), want_after.len());
+                        if (from != want_from || upto != want_upto || after != want_after) && w.range_forms.is_none() {
+                            w.range_forms = Some(format!("queue {name:?}: range({p}..) / range(..={p}) / range(>{p}) disagree with range(..): {} / {} / {} records instead of {} / {} / {}", from.len(), upto.len(), after.len(), want_from.len(), want_upto.len(), want_after.len()));
                         }
                     }
                 }
